@@ -2,7 +2,7 @@
 #include "c11_csr_ops.h"
 namespace c11 {
 void registerCsrA() {
-#ifdef C11_FULL
+#if 0 // full matrix: see c11_x_*.cpp
   regCsrOptions<void>(O_ALL, O_ALL);
 #else
   regCsr<Csr<void, false, false, false>>("lock", O_ALL);
